@@ -16,16 +16,23 @@ import (
 // C14: concurrent HandleMessage / Send calls on the real msg.Box, interleaved deterministically at the lock
 // boundaries (yield hooks, build tag verif) by a cooperative scheduler that replays a given schedule.
 
-type jThread struct {
+type jCall struct {
 	Kind  string `json:"kind"` // recv | send
 	Msg   *jBMsg `json:"msg,omitempty"`
 	Topic string `json:"topic,omitempty"`
 }
 
+// one goroutine: the calls it makes one after the other (a connection reader delivering the messages of its peer,
+// or the local protocol goroutine sending)
+type jThread struct {
+	Calls []jCall `json:"calls"`
+}
+
 type jGrant struct {
 	Thread   int      `json:"t"`
 	Noop     bool     `json:"noop"`
-	Site     string   `json:"site"` // where the thread stopped: a yield site or "done"
+	Site     string   `json:"site"` // where the thread stopped: a yield site, "call:next" or "done"
+	Done     bool     `json:"done"`
 	Handoffs []jBMsg  `json:"handoffs"`
 	Forwards []string `json:"forwards"`
 }
@@ -101,13 +108,18 @@ func runBoxConc(id int, family string, threads []jThread, schedule []int, maxT i
 				}
 				s.report <- "done"
 			}()
-			if th.Kind == "recv" {
-				t, _ := hex.DecodeString(th.Msg.Topic)
-				d, _ := hex.DecodeString(th.Msg.Data)
-				sb.box.HandleMessage(&IncMessage{MsgType: uint8(MsgTypeMPC), Topic: t, Data: d, Source: th.Msg.Src})
-			} else {
-				t, _ := hex.DecodeString(th.Topic)
-				sb.box.Send(uint8(MsgTypeMPC), t, []byte("out"), 1)
+			for k, c := range th.Calls {
+				if k > 0 {
+					s.hook("call:next")
+				}
+				if c.Kind == "recv" {
+					t, _ := hex.DecodeString(c.Msg.Topic)
+					d, _ := hex.DecodeString(c.Msg.Data)
+					sb.box.HandleMessage(&IncMessage{MsgType: uint8(MsgTypeMPC), Topic: t, Data: d, Source: c.Msg.Src})
+				} else {
+					t, _ := hex.DecodeString(c.Topic)
+					sb.box.Send(uint8(MsgTypeMPC), t, []byte("out"), 1)
+				}
 			}
 		}()
 	}
@@ -134,6 +146,7 @@ func runBoxConc(id int, family string, threads []jThread, schedule []int, maxT i
 			s.done[t] = true
 			sc.Panic = "stuck"
 		}
+		g.Done = s.done[t]
 		g.Handoffs = append(g.Handoffs, sb.rec.handoffs...)
 		g.Forwards = append(g.Forwards, sb.rec.forwards...)
 		sc.Grants = append(sc.Grants, g)
@@ -167,27 +180,55 @@ func runBoxConc(id int, family string, threads []jThread, schedule []int, maxT i
 	return sc
 }
 
+// random thread sets: reader goroutines (one per sender: the transport delivers the messages of a peer in order from one
+// goroutine) and sending goroutines; now and then a goroutine that both receives and sends
 func concThreads(r *prng, n int, ntopics, nsrc int) []jThread {
 	var ths []jThread
 	seq := 0
+	src := 0
 	for i := 0; i < n; i++ {
-		if r.chance(1, 3) {
-			ths = append(ths, jThread{Kind: "send", Topic: boxTopic(r.intn(ntopics))})
-		} else {
-			seq++
-			ths = append(ths, jThread{Kind: "recv", Msg: &jBMsg{Src: uint16(1 + r.intn(nsrc)), Topic: boxTopic(r.intn(ntopics)), Data: fmt.Sprintf("%04x", seq)}})
+		var th jThread
+		k := 1 + r.intn(4)
+		switch {
+		case src < nsrc && (i == 0 || !r.chance(1, 3)):
+			src++
+			for j := 0; j < k; j++ {
+				seq++
+				th.Calls = append(th.Calls, jCall{Kind: "recv", Msg: &jBMsg{Src: uint16(src), Topic: boxTopic(r.intn(ntopics)), Data: fmt.Sprintf("%04x", seq)}})
+				if r.chance(1, 8) {
+					th.Calls = append(th.Calls, jCall{Kind: "send", Topic: boxTopic(r.intn(ntopics))})
+				}
+			}
+		default:
+			for j := 0; j < (k+1)/2; j++ {
+				th.Calls = append(th.Calls, jCall{Kind: "send", Topic: boxTopic(r.intn(ntopics))})
+			}
 		}
+		ths = append(ths, th)
 	}
 	return ths
 }
 
 func runBoxConcAll(r *prng, count int, thorough bool) {
 	id := 0
-	mkRecv := func(src int, ti int, seq int) jThread {
-		return jThread{Kind: "recv", Msg: &jBMsg{Src: uint16(src), Topic: boxTopic(ti), Data: fmt.Sprintf("%04x", seq)}}
+	seq := 0
+	reader := func(src int, topics ...int) jThread {
+		var th jThread
+		for _, ti := range topics {
+			seq++
+			th.Calls = append(th.Calls, jCall{Kind: "recv", Msg: &jBMsg{Src: uint16(src), Topic: boxTopic(ti), Data: fmt.Sprintf("%04x", seq)}})
+		}
+		return th
 	}
-	mkSend := func(ti int) jThread { return jThread{Kind: "send", Topic: boxTopic(ti)} }
-	// exhaustive: every schedule of length L over two / three threads (grants to finished threads are no-ops)
+	sender := func(topics ...int) jThread {
+		var th jThread
+		for _, ti := range topics {
+			th.Calls = append(th.Calls, jCall{Kind: "send", Topic: boxTopic(ti)})
+		}
+		return th
+	}
+	// exhaustive: every schedule of length L over the threads (grants to finished threads are no-ops; what is still
+	// running after the schedule is run to completion round robin)
 	exhaustive := func(family string, ths []jThread, L int) {
 		k := len(ths)
 		total := 1
@@ -205,25 +246,28 @@ func runBoxConcAll(r *prng, count int, thorough bool) {
 			id++
 		}
 	}
-	// corpus: the three witness schedules of Props/C14.v (late, lost, order) always run first
-	emit(runBoxConc(id, "corpus", []jThread{mkRecv(1, 0, 1), mkSend(0)}, []int{0, 1, 1, 0, 0, 0, 0, 0}, 50))
+	// corpus: the thread sets and schedules on which the pinned upstream Box lost, delayed or reordered a message
+	// (Props/C14.v: late, lost, order) always run first
+	emit(runBoxConc(id, "corpus", []jThread{reader(1, 0), sender(0)}, []int{0, 1, 1, 0, 0, 0, 0, 0}, 50))
 	id++
-	emit(runBoxConc(id, "corpus", []jThread{mkRecv(1, 0, 0), mkRecv(1, 0, 1), mkSend(0)}, []int{0, 0, 0, 0, 0, 0, 1, 1, 1, 1, 2, 2, 2, 1}, 50))
+	emit(runBoxConc(id, "corpus", []jThread{reader(1, 0), reader(2, 0), sender(0)}, []int{0, 0, 0, 0, 0, 0, 1, 1, 1, 1, 2, 2, 2, 1}, 50))
 	id++
-	emit(runBoxConc(id, "corpus", []jThread{mkRecv(1, 0, 1), mkRecv(1, 0, 2), mkSend(0), mkRecv(1, 0, 3)},
-		[]int{0, 0, 0, 0, 0, 0, 1, 1, 1, 1, 1, 2, 2, 3, 2, 2}, 50))
+	emit(runBoxConc(id, "corpus", []jThread{reader(1, 0, 0, 0), sender(0)}, []int{0, 0, 1, 1, 1, 0, 1, 0, 1, 1, 1, 1}, 50))
 	id++
-	exhaustive("recv|send", []jThread{mkRecv(1, 0, 1), mkSend(0)}, 9)
-	exhaustive("recv|recv", []jThread{mkRecv(1, 0, 1), mkRecv(2, 0, 2)}, 9)
+	emit(runBoxConc(id, "corpus", []jThread{reader(1, 0, 0), sender(0), reader(2, 0)}, []int{0, 0, 1, 1, 1, 2, 0, 1, 2, 1, 1, 1}, 50))
+	id++
+	exhaustive("reader2|send", []jThread{reader(1, 0, 0), sender(0)}, 10)
+	exhaustive("recv|recv|send", []jThread{reader(1, 0), reader(2, 0), sender(0)}, 6)
 	if thorough {
-		exhaustive("recv|recv|send", []jThread{mkRecv(1, 0, 1), mkRecv(1, 0, 2), mkSend(0)}, 9)
-		exhaustive("recv|send|send", []jThread{mkRecv(1, 0, 1), mkSend(0), mkSend(0)}, 9)
+		exhaustive("reader3|send.send", []jThread{reader(1, 0, 0, 0), sender(0, 0)}, 13)
+		exhaustive("reader2|reader1|send", []jThread{reader(1, 0, 0), reader(2, 0), sender(0)}, 9)
+		exhaustive("reader2|send|send", []jThread{reader(1, 0, 1), sender(0), sender(1, 0)}, 9)
 	}
-	// random bursty schedules over 3..7 threads, one or two topics
+	// random bursty schedules over 2..6 threads, one or two topics
 	for i := 0; i < count; i++ {
-		n := 3 + r.intn(5)
-		ths := concThreads(r, n, 1+r.intn(2), 1+r.intn(2))
-		L := 4 * n
+		n := 2 + r.intn(5)
+		ths := concThreads(r, n, 1+r.intn(2), 1+r.intn(3))
+		L := 6 * n
 		sched := make([]int, L)
 		cur := r.intn(n)
 		for j := range sched {
